@@ -156,11 +156,28 @@ func runC01(p *Prog, r *Report, tier string) {
 		r.undecided("G-mpt", "G-mpt/VAS/previous:=recovered", c.pos(), "cannot identify the previous-signer variable (no `latest.X != nil` test and no loop-carried previous address found)")
 	} else {
 		var setX, setY []ssa.Instruction
+		var other []string
+		inLoop := func(b *ssa.BasicBlock) bool {
+			return header != nil && header.Block().Dominates(b) && fi.reach[b.Index][header.Block().Index]
+		}
 		for _, b := range vas.Blocks {
 			for _, in := range b.Instrs {
 				st, ok := in.(*ssa.Store)
 				if !ok {
 					continue
+				}
+				// any other assignment of the record inside the loop (a reset, a different key) makes
+				// the next iteration compare against something that is not the previous signer
+				if root, isAlloc := rootAlloc(st.Addr); isAlloc && root == latest && inLoop(b) {
+					v := c.term(st.Val, st)
+					whole := st.Addr == ssa.Value(latest) && strings.Contains(v, "X:RECX") && strings.Contains(v, "Y:RECY")
+					field := false
+					if fa, ok := st.Addr.(*ssa.FieldAddr); ok && fa.X == ssa.Value(latest) {
+						field = (fieldName(fa) == "X" && v == "RECX") || (fieldName(fa) == "Y" && v == "RECY") || (fieldName(fa) == "Curve")
+					}
+					if !whole && !field {
+						other = append(other, p.instrPos(st)+" := "+v)
+					}
 				}
 				if st.Addr == ssa.Value(latest) {
 					// whole-struct assignment
@@ -190,6 +207,8 @@ func runC01(p *Prog, r *Report, tier string) {
 		}
 		okX := len(setX) > 0 && !fi.blockReachesAvoiding(body, backJumps[0], setX)
 		okY := len(setY) > 0 && !fi.blockReachesAvoiding(body, backJumps[0], setY)
+		r.check(len(other) == 0, "G-mpt", "G-mpt/VAS/previous-only-recovered", c.pos(), "inside the loop the previous-signer record is assigned nothing but the recovered key",
+			fmt.Sprintf("the previous-signer record is also assigned %v inside the loop: a later signature is compared against something other than its predecessor", other))
 		r.check(okX && okY, "G-mpt", "G-mpt/VAS/previous:=recovered", p.instrPos(backJumps[0]), "latest.{X,Y} := recovered.{X,Y} on every path to the next iteration",
 			"an iteration can reach the next one without recording the recovered key as the previous signer: ordering would compare against a stale/absent key and duplicates pass")
 	}
